@@ -20,10 +20,14 @@ def run(ctx):
     for L in range(1, 9):
         for _ in range(6 if ctx.tier == "quick" else 60):
             shapes.append([rng.choice([5, 6, 7, 8, 9, 1]) for _ in range(L)])
+    tall_cases = []
     for sh in shapes:
         hs = [LMS_H[t] for t in sh]
         tot = sum(hs)
         if tot > 63:
+            # taller lists: the 8-byte counter is the limit - the last counter value must end the lifetime (wipe), never overflow
+            for c in (0, 2 ** 63, 2 ** 64 - 2, 2 ** 64 - 1):
+                tall_cases.append(Case("ctr H=S32 lms=%s c=%d" % (",".join(map(str, sh)), c), "ctr-tall/L%d" % len(sh), {"hs": hs, "c": c}))
             continue
         for c in boundary_counters(hs, rng, 2)[: (12 if ctx.tier == "quick" else 80)]:
             cases.append(Case("ctr H=S32 lms=%s c=%d" % (",".join(map(str, sh)), c), "ctr/L%d" % len(sh), {"hs": hs, "c": c}))
@@ -34,6 +38,12 @@ def run(ctx):
         exp_inc = "wiped" if cnt + 1 >= N else str(cnt + 1)
         if f.get("life") != str(N - cnt) or f.get("inc") != exp_inc:
             ctx.fail("lifetime / successor accounting is not (leaves - counter) / counter+1", [c.line], a, "inc=%s life=%d" % (exp_inc, N - cnt))
+    for c, a, b in ctx.both(tall_cases, None):
+        f = fields(a)
+        cnt = c.meta["c"]
+        exp_inc = "wiped" if cnt >= 2 ** 64 - 1 else str(cnt + 1)
+        if "panic" in a or f.get("inc") != exp_inc:
+            ctx.fail("a key taller than 64 bits does not end its lifetime cleanly at the last counter value", [c.line], a, "inc=%s, no panic" % exp_inc)
     # the wiped key
     cases = []
     for H in ALL_H:
